@@ -137,7 +137,9 @@ func MultiPolygon(box orb.Bound, mp orb.MultiPolygon, o orb.Orientation) orb.Mul
 			return nil // everything outside bound
 		}
 
-		return mp // everything inside bound
+		if len(closedOuters) == len(outerRings) {
+			return mp // everything inside bound
+		}
 	}
 
 	// inner rings
